@@ -68,7 +68,11 @@ def symbolize(exe, text):
 def run_check(prop, tier):
     spec = CHECKS[prop]
     runs = spec[tier] if tier in spec else spec["quick"]
-    budget = float(os.environ.get("VERIF_BUDGET_S", spec.get("budget", {}).get(tier, 240 if tier == "quick" else 900)))
+    if tier == "thorough":
+        # the cheap runs first (focused ones complete in seconds to a minute): what they leave
+        # of their share goes to the expensive bounds at the end
+        runs = sorted(runs, key=lambda r: 0 if "-focus" in r["args"] else 1)
+    budget = float(os.environ.get("VERIF_BUDGET_S", spec.get("budget", {}).get(tier, 240 if tier == "quick" else 1800)))
     seed = int(os.environ.get("VERIF_SEED", "0") or 0)
     t0 = time.time()
     outdir = os.path.join(OUT, prop)
